@@ -88,6 +88,14 @@ function duplicatedTargetPart (t) {
     }
     return null
   }
+  if (t.type === 'SuperPropExpression') {
+    // `super` itself is not evaluated; only a computed key can be
+    if (isObj(t.property) && t.property.type === 'Computed') {
+      const e = t.property.expression
+      if (!(isObj(e) && (e.type === 'Identifier' || /Literal$/.test(e.type) || e.$reread))) return 'key:' + e.type
+    }
+    return null
+  }
   return 'target:' + t.type
 }
 
